@@ -1,5 +1,7 @@
 package rules
 
+import "golang.org/x/tools/go/ssa"
+
 // seq runs several rule groups under one property. Sub-rules borrowed from a
 // sibling property keep their own rule prefix in obligation keys (e.g. a
 // C12.* obligation evaluated under C01): the property statements overlap
@@ -51,6 +53,7 @@ var All = map[string]func(*Ctx){
 	"C07": seq(C07, func(c *Ctx) {
 		c.logoutClear("C07.logout-cookie", "C07.logout-cookie", true)
 		c.rememberRevokeWire("C07.revoke-wire", "C07.revoke")
+		c.revokeSubject("C07.revoke-subject")
 		c.ctxUserFirst("C07.subject")
 		c.rememberOnlyOnTrue("C07.on-request")
 		c.oauthRememberLiteral("C07.on-request")
@@ -70,7 +73,10 @@ var All = map[string]func(*Ctx){
 		c.afterHandlersUnconditional("C09.after-unconditional")
 		c.delAllQueued("C09.delall-queued")
 	}),
-	"C10": seq(C10, func(c *Ctx) { c.delAllQueued("C10.delall-queued") }),
+	"C10": seq(C10, func(c *Ctx) {
+		c.delAllQueued("C10.delall-queued")
+		c.zeroValueInvoke("C10.zero-value", func(f *ssa.Function) bool { return pkgOf(f) == "ab/logout" })
+	}),
 	"C11": seq(C11, func(c *Ctx) {
 		c.noStateAfterWrite("C11.before-write")
 		c.readStateErrors("C11.read-err")
@@ -117,6 +123,8 @@ var All = map[string]func(*Ctx){
 		c.flushSites("C18.flush-sites")
 		c.errorPathsPutNothing("C18.error-path-puts")
 		c.storeBeforeSession("C18.store-before-session")
+		c.zeroValueInvoke("C18.zero-value", nil)
+		c.assertAfterErrCheck("C18.assert-after-check")
 	}),
 	"C19": seq(C19, (*Ctx).hasherPassThrough),
 	"C20": seq(C20, func(c *Ctx) {
